@@ -16,6 +16,8 @@ import (
 	"math/rand"
 	"strings"
 	"time"
+
+	"github.com/trzsz/trzsz-go/trzsz"
 )
 
 type c05WinKind struct {
@@ -83,7 +85,12 @@ func c05WindowRun(x *c05F, work string, rng *rand.Rand, api bool, k c05WinKind) 
 	case "ordinary-only":
 		window = []step{{[]byte("^C\r\n$ "), nil}, {[]byte("\x1b[?2004hstill printing"), nil}}
 	case "trigger-split-over-two-chunks":
-		cut := 8 + rng.Intn(len(line)-12)
+		// cut inside the marker or the version: neither half is a trigger on its own (a cut behind
+		// the version would leave a complete, shorter trigger in the first half)
+		cut := 6 + rng.Intn(bytes.Index(line, []byte(":S:"))+7-6)
+		for trzsz.VerifFreshDetectorFires(line[:cut]) || trzsz.VerifFreshDetectorFires(line[cut:]) {
+			cut--
+		}
 		window = []step{{line[:cut], nil}, {line[cut:], nil}}
 	case "trigger-alone":
 		window = []step{{line, shown(line)}}
